@@ -22,7 +22,7 @@ import os, re, sys, json, glob, argparse
 
 HEADERS = ["crypto/belt.h", "crypto/bash.h", "crypto/brng.h", "crypto/botp.h", "crypto/bels.h",
            "crypto/bign.h", "crypto/bign96.h", "crypto/bake.h", "crypto/bpki.h", "crypto/btok.h",
-           "crypto/g12s.h", "crypto/dstu.h", "crypto/pfok.h", "crypto/stb99.h"]
+           "crypto/g12s.h", "crypto/dstu.h", "crypto/pfok.h", "crypto/stb99.h", "core/rng.h"]
 
 
 # ------------------------------------------------------------------ header parsing
@@ -355,6 +355,8 @@ DRIVE = {
 
     # ---- bash, brng, botp
     "bashHash": D({"l": 128, "count": 40}, 0, extra={"count": [0, 1, 191, 192, 193]}, level_is_arg=True),
+    # the shared generator: the monitored unit is rngCreate (+ rngClose on success); the driver adds a follow-up probe
+    "rngCreate": D({}, 0),
     "brngCTRRand": D({"count": 96}, 1, extra={"count": [0, 1, 31, 32, 33]}),
     "brngHMACRand": D({"count": 96, "key_len": 32, "iv_len": 32}, 1,
                       extra={"count": [0, 1, 32, 33], "key_len": [0, 1, 31, 33, 127], "iv_len": [0, 1, 127]}),
